@@ -182,3 +182,37 @@ Definition model_out (c : ecase) :=
   let W := world_of c in
   let '(fs', tr, r, ks) := run_case c in
   (res_code r, ks, map (enc_op W) tr, fs_files fs', check_paths c).
+
+(* ---- a concrete tiny scenario, used for the non-vacuity examples and the refutation witnesses ----
+   cwd /t;  /t/m = "A\r\n" includes a, b and itself (cycle);  /t/a = "B\n" includes b (diamond);
+   /t/b = "C\n".  Root spelled "m" (bare).  The body edits m (first character only), leaves a alone,
+   deletes b and adds the bare key n.                                                              *)
+From Coq Require Import String Ascii.
+Definition zs (x : string) : str := map (fun a => Z.of_nat (nat_of_ascii a)) (list_ascii_of_string x).
+Definition CRLF : str := [CR; NL].
+Definition ex_case (translate guard : bool) : ecase :=
+  let tm := zs "A" ++ (if translate then [NL] else CRLF) in
+  mkcase translate guard (zs "/t")
+         [(zs "/t/m", zs "A" ++ CRLF); (zs "/t/a", zs "B" ++ [NL]); (zs "/t/b", zs "C" ++ [NL])]
+         [zs "/t"]
+         [(tm, [zs "a"; zs "b"; zs "m"]); (zs "B" ++ [NL], [zs "b"])]
+         []
+         [(zs "a", [zs "a"]); (zs "b", [zs "b"]); (zs "m", [zs "m"])]
+         1 (zs "m")
+         (Some [(zs "m", zs "Z" ++ (if translate then [NL] else CRLF)); (zs "a", zs "B" ++ [NL]); (zs "n", zs "N" ++ [NL])])
+         0 None [] [] [].
+Definition ex_W (t g : bool) : world := world_of (ex_case t g).
+Definition ex_fs : fsys := mkfs (c_files (ex_case false true)) (c_dirs (ex_case false true)).
+Definition ex_root : path := zs "m".
+Definition ex_body (t g : bool) : body_t (ex_W t g) := fun _ => c_body (ex_case t g).
+Definition ex_fuel : nat := 4.
+Definition ex_bfs (t g : bool) := bfs (ex_W t g) ex_fuel ex_fs [normpath (ex_W t g) ex_root] [] [].
+Definition ex_texts (t g : bool) : list (path * str) :=
+  match snd (ex_bfs t g) with EOk (x, _) => x | EErr _ => [] end.
+Definition ex_files (t g : bool) : list (path * model (ex_W t g)) :=
+  match snd (ex_bfs t g) with EOk (_, x) => x | EErr _ => [] end.
+Definition ex_files' (t g : bool) : list (path * model (ex_W t g)) :=
+  match ex_body t g (ex_files t g) with Some x => x | None => [] end.
+Definition ex_out (t g : bool) := edit_file_recursive (ex_W t g) ex_fuel ex_fs ex_root (ex_body t g).
+Definition ex_fs' (t g : bool) : fsys := fst (fst (ex_out t g)).
+Definition ex_tr (t g : bool) : list op := snd (fst (ex_out t g)).
